@@ -3618,6 +3618,7 @@ void SGXMLScanner::resolveSchemaGrammar(const XMLCh* const loc, const XMLCh* con
         parser.setDoNamespaces(true);
         parser.setUserEntityHandler(fEntityHandler);
         parser.setUserErrorReporter(fErrorReporter);
+        parser.setDisableDefaultEntityResolution(fDisableDefaultEntityResolution);
 
         //Normalize sysId
         XMLBufBid nnSys(&fBufMgr);
@@ -3947,6 +3948,7 @@ Grammar* SGXMLScanner::loadXMLSchemaGrammar(const InputSource& src,
     parser.setDoNamespaces(true);
     parser.setUserEntityHandler(fEntityHandler);
     parser.setUserErrorReporter(fErrorReporter);
+    parser.setDisableDefaultEntityResolution(fDisableDefaultEntityResolution);
 
     // Should just issue warning if the schema is not found
     bool flag = src.getIssueFatalErrorIfNotFound();
